@@ -1,5 +1,156 @@
-"""StiffPanelBay part of C13 (filled in below)"""
+"""StiffPanelBay part of C13: size and placement of the components (skin panels and 1-D stiffeners at 0, 2-D stiffeners
+at running offsets after the skin block), sum of the component matrices, symmetrisation.
+
+The stiffener objects are abstract here (their own calc_* methods are under contract in the stiffener checks): each
+exposes flange/base sub-panels with symbolic sizes and a calc_k0/calc_kG0/calc_kM(size,row0,col0,...) method that records
+where it was asked to put its block."""
+import itertools
+
+from ..poly import P, normal
+from .. import pysym, shims, panelctx, pycheck
+from ..pysym import Interp, real, integer, Opaque, Obj, SymRaise
+from . import py_panel
+from .py_panel import report
+
+BF = 'compmech/stiffpanelbay/stiffpanelbay.py:StiffPanelBay.'
+
+
+def stub_panel(name, size):
+    o = Obj(None)
+    o.name = name
+    o.attrs['get_size'] = lambda: size
+    return o
+
+
+def make_stiffener(kind, idx, log):
+    s = Obj(None)
+    s.name = '%s#%d' % (kind, idx)
+    s.attrs['_rebuild'] = lambda: None
+    sizes = {}
+    if kind == 'blade2d':
+        sizes['flange'] = integer('sz_bf%d' % idx)
+        s.attrs['flange'] = stub_panel(s.name + '.flange', sizes['flange'])
+        s.attrs['base'] = None
+    elif kind == 't2d':
+        sizes['base'] = integer('sz_tb%d' % idx)
+        sizes['flange'] = integer('sz_tf%d' % idx)
+        s.attrs['base'] = stub_panel(s.name + '.base', sizes['base'])
+        s.attrs['flange'] = stub_panel(s.name + '.flange', sizes['flange'])
+    for which in ('k0', 'kG0', 'kM'):
+        def calc(which=which, **kw):
+            log.append((s.name, which, dict(kw)))
+            s.attrs[which] = Opaque('stiffener-matrix', who=s.name, which=which,
+                                    size=kw.get('size'), row0=kw.get('row0'), col0=kw.get('col0'))
+            return s.attrs[which]
+        s.attrs['calc_' + which] = calc
+    s.sizes = sizes
+    return s
+
+
+def peq(a, b):
+    a = a if isinstance(a, P) else P.const(a)
+    b = b if isinstance(b, P) else P.const(b)
+    return normal(a - b).is_zero()
+
+
+def check_bay(led):
+    led.function(BF + 'get_size')
+    for which in ('k0', 'kG0', 'kM'):
+        led.function(BF + 'calc_' + which)
+    led.function(BF + '_rebuild')
+    it, calls = py_panel.mk()
+    bmod = it.module('compmech.stiffpanelbay.stiffpanelbay')
+    for n1, n2, n3, npan in itertools.product((0, 1, 2), (0, 1, 2), (0, 1, 2), (1, 2)):
+        if npan == 2 and (n1, n2, n3) not in ((0, 0, 0), (1, 1, 1), (2, 2, 2)):
+            continue
+        tag = 'panels=%d,blade1d=%d,blade2d=%d,tstiff2d=%d' % (npan, n1, n2, n3)
+        for which in ('k0', 'kG0', 'kM'):
+            log = []
+
+            def run():
+                del log[:]
+                bay = it.call(bmod.g['StiffPanelBay'], [], {})
+                a, b = real('a'), real('b')
+                m, n = integer('m'), integer('n')
+                bay.attrs.update(a=a, b=b, m=m, n=n, mu=real('mu'))
+                panels = []
+                ycuts = [P.const(0)] + [real('ycut%d' % i) for i in range(1, npan)] + [b]
+                for i in range(npan):
+                    p = panelctx.new_panel(it, a=a, b=b, y1=ycuts[i], y2=ycuts[i + 1], stack=[real('th')], plyt=real('t'),
+                                           laminaprop=(real('E'), real('E'), real('nu')), mu=real('mu'), m=m, n=n)
+                    p.name = 'skin%d' % i
+                    panels.append(p)
+                bay.attrs['panels'] = panels
+                b1 = [make_stiffener('blade1d', i, log) for i in range(n1)]
+                b2 = [make_stiffener('blade2d', i, log) for i in range(n2)]
+                t2 = [make_stiffener('t2d', i, log) for i in range(n3)]
+                bay.attrs['bladestiff1ds'] = b1
+                bay.attrs['bladestiff2ds'] = b2
+                bay.attrs['tstiff2ds'] = t2
+                del calls[:]
+                r = it.call(it.getattr(bay, 'calc_' + which), [], dict(silent=True))
+                size = it.call(it.getattr(bay, 'get_size'), [], {})
+                return bay, panels, b1, b2, t2, r, size, list(log), (m, n)
+            for path, out in it.explore(run):
+                func = BF + 'calc_' + which
+                name = '%s[%s]' % (func, tag)
+                if out[0] != 'return':
+                    report(led, name + '/no-exception', func, ['raises %s%s' % (out[1].tname, tuple(str(x)[:80] for x in out[1].eargs))], signature='raise:' + out[1].tname)
+                    continue
+                bay, panels, b1, b2, t2, r, size, lg, (m, n) = out[1]
+                skin = 3 * m * n
+                tot = skin
+                starts = {}
+                for s in b2:
+                    starts[s.name] = tot
+                    tot = tot + s.sizes['flange']
+                for s in t2:
+                    starts[s.name] = tot
+                    tot = tot + s.sizes['base'] + s.sizes['flange']
+                probs = []
+                if not peq(size, tot):
+                    probs.append('get_size() = %s, expected the sum of the component sizes %s' % (pycheck.describe(size), pycheck.describe(tot)))
+                # stiffener blocks
+                seen = {}
+                for who, w, kw in lg:
+                    if w != which:
+                        probs.append('%s asked for %s while computing %s' % (who, w, which))
+                        continue
+                    seen[who] = kw
+                for s in b1 + b2 + t2:
+                    kw = seen.get(s.name)
+                    if kw is None:
+                        probs.append('%s does not contribute to %s' % (s.name, which))
+                        continue
+                    want0 = starts.get(s.name, P.const(0))
+                    if not peq(kw.get('row0'), want0) or not peq(kw.get('col0'), want0):
+                        probs.append('%s placed at row0=%s col0=%s, expected %s (skin block + sizes of the 2-D stiffeners before it)'
+                                     % (s.name, pycheck.describe(kw.get('row0')), pycheck.describe(kw.get('col0')), pycheck.describe(want0)))
+                    if not peq(kw.get('size'), tot):
+                        probs.append('%s computed for global size %s, expected %s' % (s.name, pycheck.describe(kw.get('size')), pycheck.describe(tot)))
+                    if kw.get('finalize') is not False:
+                        probs.append('%s finalized before assembly' % s.name)
+                # skin panels: kernel terms at offset 0 with the global size
+                wrap, terms = pycheck.terms_of(r)
+                if wrap[:1] != ['symmetrized']:
+                    probs.append('assembled matrix not symmetrized')
+                kern = [t for k_, t in terms if isinstance(t, Opaque) and t.kind == 'kernel']
+                stiff = [t for k_, t in terms if isinstance(t, Opaque) and t.kind == 'stiffener-matrix']
+                if len(kern) != len(panels):
+                    probs.append('%d skin kernel terms, expected %d' % (len(kern), len(panels)))
+                for t in kern:
+                    a_ = t.f['args']
+                    if not (peq(a_.get('row0'), 0) and peq(a_.get('col0'), 0) and peq(a_.get('size'), tot)):
+                        probs.append('skin term placed at row0=%s col0=%s size=%s, expected 0, 0, %s' % (pycheck.describe(a_.get('row0')), pycheck.describe(a_.get('col0')),
+                                                                                                     pycheck.describe(a_.get('size')), pycheck.describe(tot)))
+                if len(stiff) != len(b1 + b2 + t2):
+                    probs.append('%d stiffener terms in the sum, expected %d' % (len(stiff), len(b1 + b2 + t2)))
+                if any(k_ != 1 for k_, t in terms):
+                    probs.append('a component is scaled')
+                report(led, name, func, probs)
+    led.solver_time('z3-feasibility', it.solver_time)
+    led.bounded_item('StiffPanelBay: 0..2 stiffeners of each of the three kinds, 1..2 skin panels (sizes, cut positions, series orders symbolic)')
 
 
 def body(led):
-    pass
+    check_bay(led)
